@@ -1,4 +1,4 @@
-//@serves C10 C01 C04
+//@serves C10 C01 C04 C15
 //@tier A
 //@include prelude/head.rs
 verus! {
@@ -31,7 +31,9 @@ pub mod utils {
 //@frozen src/utils/sysctl.rs :: fn sysctl_read_line
     /// utils/sysctl.rs sysctl_read_parse: open + read + parse of /proc/sys/...; each step may fail (A9)
     #[verifier::external_body]
-    pub fn sysctl_read_parse(procfs: &ProcfsHandle, sysctl: &str) -> (r: Result<u32, Error>) { unimplemented!() }
+    pub fn sysctl_read_parse(procfs: &ProcfsHandle, sysctl: &str) -> (r: Result<u32, Error>)
+        requires sysctl@ == "fs.protected_symlinks"@,       // [C15.sysctl.the_switch_may_follow_link_consults_is_fs_protected_symlinks]
+    { unimplemented!() }
 }
 // The two `Lazy` statics whose initialisers run at first use inside library operations (R7 gives the
 // closure body a function of its own; `expect` is a panic-freedom obligation, C10):
